@@ -14,7 +14,7 @@ from mirsmt.interp import Inconclusive, PathEnd
 BV = z3.BitVecSort(64)
 COUNTERS = ['features', 'rules', 'sc_passed', 'sc_skipped', 'sc_failed', 'sc_retried',
             'st_passed', 'st_skipped', 'st_failed', 'st_retried', 'parsing_errors', 'failed_hooks']
-KEY_TY = '(event::Source<gherkin::Feature>, std::option::Option<event::Source<gherkin::Rule>>, event::Source<gherkin::Scenario>)'
+
 IND_TY = 'writer::summarize::Indicator'
 
 
@@ -129,13 +129,42 @@ class SymEvent:
         return self.sc == bv(ix.Sc['Finished'])
 
 
-def key_values(kf, kr_d, kr, ks):
+def key_values(kf, kr_d, kr, ks, sfx=''):
     def src(ty, inner, pid, nm):
         return Adt('event::Source<%s>' % inner, {(None, 0): Ref(Cell(Lazy(inner, nm), name=nm), (), pid=pid)})
-    f = src('f', 'gherkin::Feature', kf, 'feat')
-    s = src('s', 'gherkin::Scenario', ks, 'scn')
-    r = Adt('std::option::Option<event::Source<gherkin::Rule>>', {(1, 0): src('r', 'gherkin::Rule', kr, 'rule')}, kr_d, None)
+    f = src('f', 'gherkin::Feature', kf, 'feat' + sfx)
+    s = src('s', 'gherkin::Scenario', ks, 'scn' + sfx)
+    r = Adt('std::option::Option<event::Source<gherkin::Rule>>', {(1, 0): src('r', 'gherkin::Rule', kr, 'rule' + sfx)}, kr_d, None)
     return f, r, s
+
+
+def indicator_key_type(prog, body):
+    """The key type of the indicator map, as the compiler spells it in the kernels' MIR (type aliases resolved)."""
+    found = set()
+    bodies = [body] + [b for n, b in prog.bodies.items() if n.endswith('>::handle_step')]
+    for b in bodies:
+        for ty in b.locals.values():
+            mm = re.search(r'HashMap<(.*), (?:writer::summarize::)?Indicator>$', ty.strip())
+            if mm:
+                found.add(mm.group(1))
+    if len(found) != 1:
+        raise Inconclusive('key type of the indicator map not found in handle_scenario / handle_step (candidates: %s)' % sorted(found))
+    return found.pop()
+
+
+def role_of(ty):
+    """Which part of a scenario's identity a parameter / key component of this type stands for."""
+    t = re.sub(r"'\w+\s*", '', ty).replace(' ', '')
+    refd = t.startswith('&')
+    t = t.lstrip('&').replace('mut', '', 1) if t.startswith('&mut') else t.lstrip('&')
+    table = (('Source<gherkin::Feature>', 'f'), ('Option<event::Source<gherkin::Rule>>', 'r'), ('Option<Source<gherkin::Rule>>', 'r'),
+             ('Source<gherkin::Scenario>', 's'), ('gherkin::Feature', 'f*'), ('gherkin::Rule', 'r*'), ('gherkin::Scenario', 's*'))
+    for pat, role in table:
+        if t.endswith(pat) and (t == pat or t[:-len(pat)].endswith('::') or t[:-len(pat)] in ('event::', 'std::option::')):
+            return role, refd
+    if 'RetryableScenario<' in t:
+        return 'ev', refd
+    return None, refd
 
 
 class Harness:
@@ -148,19 +177,22 @@ class Harness:
         self.body = chk.prog.find('>::handle_scenario')
         if 'Summarize' not in self.body.params[0][1]:
             raise Inconclusive('handle_scenario is not Summarize\'s')
+        self.key_ty = indicator_key_type(chk.prog, self.body)
         self.pre = SymState('S')
         self.ev = SymEvent('E')
         self.kf, self.kr, self.ks = z3.BitVecs('K.f K.r K.s', 64)
         self.kr_d = z3.BitVec('K.r_d', 64)
         self.map0 = None
-        ex, M, ev = self.ex, self.M, self.ev
+        ex, M, H = self.ex, self.M, self
 
         # `scenario.steps.last()` and `*s == step` on gherkin values are the two opaque oracles
         def last_model(ex_, info, a, dty):
+            ev = H.ev
             cell = Cell(Lazy('gherkin::Step', 'last_step'))
             return Adt(dty, {(1, 0): Ref(cell, ())}, z3.If(ev.has_last, bv(1), bv(0)), None)
 
         def eq_model(ex_, info, a, dty):
+            ev = H.ev
             st = re.sub(r"[&\s]|'\w+", '', info['self_ty'] or '')
             if st.endswith('StepType'):
                 r = ev.same_ty
@@ -177,7 +209,7 @@ class Harness:
 
     def pre_state(self):
         ix, S = self.ix, self.pre
-        m = self.M.new_symmap(self.ex, 'S.map', KEY_TY, IND_TY)
+        m = self.M.new_symmap(self.ex, 'S.map', self.key_ty, IND_TY)
         self.map0 = m
         self.ex.env.setdefault('ranged', set())
 
@@ -209,10 +241,43 @@ class Harness:
         out = {k: z3.simplify(v) for k, v in out.items()}
         return out, m
 
+    def key_of(self, f, r, s):
+        """The map key that stands for the scenario (f, r, s): one component per component of the real key type."""
+        from mirsmt.values import tuple_elems
+        comps = tuple_elems(self.key_ty)
+        single = comps is None
+        vals = []
+        for ty in ([self.key_ty] if single else comps):
+            role, _ = role_of(ty)
+            v = {'f': f, 'r': r, 's': s}.get(role)
+            if v is None:
+                raise Inconclusive('indicator key component of type %s is no Source of the scenario\'s path: which scenario a key '
+                                   'stands for is decided by the key-separation obligation only' % ty)
+            vals.append(v)
+        if single:
+            return vals[0]
+        return Adt('tuple', {(None, i): v for i, v in enumerate(vals)})
+
     def key_term(self):
         f, r, s = key_values(self.kf, self.kr_d, self.kr, self.ks)
-        tup = Adt('tuple', {(None, 0): f, (None, 1): r, (None, 2): s})
-        return self.M.key_term(self.ex, tup, self.map0.ksh)
+        return self.M.key_term(self.ex, self.key_of(f, r, s), self.map0.ksh)
+
+    def bind_args(self, f, r, s, evref):
+        """handle_scenario's arguments, each parameter bound by its TYPE (whatever their order and by-value / by-reference form)."""
+        args = []
+        for _, ty in self.body.params[1:]:
+            role, refd = role_of(ty)
+            if role == 'ev':
+                args.append(evref)
+            elif role in ('f', 'r', 's'):
+                v = {'f': f, 'r': r, 's': s}[role]
+                args.append(Ref(Cell(v), ()) if refd else v)
+            elif role in ('f*', 's*') and refd:
+                arc = {'f*': f, 's*': s}[role].fields[(None, 0)]
+                args.append(Ref(arc.cell, ()))          # a reference into the Arc's content
+            else:
+                raise Inconclusive('handle_scenario parameter of type %s: not part of a scenario event' % ty)
+        return args
 
     def add_invariants(self, ex):
         """INV: counters < 2^62; the stored indicator of the key is a valid enum value."""
@@ -228,7 +293,7 @@ class Harness:
         f, r, s = key_values(self.kf, self.kr_d, self.kr, self.ks)
         evc = Cell(self.ev.build(self.ix), name='ev')
         try:
-            ex.call_body(self.body, [Ref(cell, ()), f, r, s, Ref(evc, ())])
+            ex.call_body(self.body, [Ref(cell, ())] + self.bind_args(f, r, s, Ref(evc, ())))
             panicked = None
         except PathEnd as e:
             if e.kind != 'panic':
@@ -342,3 +407,139 @@ def confirm_transition(chk, H, o, prop, tag):
     else:
         o.verdict = 'inconclusive'
         o.detail += ' | native replay DISAGREES: predicted deltas %s, real %s' % (want, got)
+
+
+# ---------------------------------------------------------------- which scenario an indicator belongs to
+
+def key_separation(chk, prop):
+    """Two scenario events of DIFFERENT scenarios (different `Source<Scenario>`), arbitrary otherwise, handled one after
+    the other by the real handle_scenario: whatever keys the code uses for its indicator map in the two calls, a key of
+    the first call never equals a key of the second.  (The frame and additivity obligations speak about "the other
+    keys"; this is what makes them speak about the other scenarios.)"""
+    from checks import common
+    from checks.common import Obligation
+    H = Harness(chk)
+    ex, M, ix = H.ex, H.M, H.ix
+    o = chk.add(Obligation('%s.key.different-scenarios-never-share-an-indicator' % prop,
+                           'two calls of handle_scenario, arbitrary pre-state, arbitrary events of two scenarios A and B; every pair of map keys used'))
+    o.verdict = 'holds'
+    w = chk.add(Obligation('%s.key.witness' % prop, 'exploration'))
+    w.kind = 'witness'
+    w.verdict = 'witness-missing'
+    A = (H.kf, H.kr_d, H.kr, H.ks)
+    B = tuple(z3.BitVec('KB.%s' % n, 64) for n in ('f', 'r_d', 'r', 's'))
+    EA, EB = H.ev, SymEvent('EB')
+    quick = chk.tier != 'thorough'
+    pairs = [0]
+
+    def run(ex_):
+        ex_.add(z3.And(*[z3.ULT(v, bv(1 << 62)) for v in H.pre.vars()]))
+        cell = Cell(H.pre_state(), name='self')
+        m0 = H.map0
+        keys = {'A': [], 'B': []}
+        cur = ['A']
+        orig = M.key_term
+
+        def rec(ex__, v, ksh):
+            t = orig(ex__, v, ksh)
+            if ksh is m0.ksh or ksh == m0.ksh:
+                keys[cur[0]].append(t)
+                # the stored indicator of any key looked at is a valid enum value (pre-state invariant)
+                ex__.add(z3.Implies(z3.Select(m0.present, t), z3.ULT(z3.Select(m0.leaves[0], t), bv(len(ix.Ind)))))
+            return t
+        M.key_term = rec
+        try:
+            for tag, K, E in (('A', A, EA), ('B', B, EB)):
+                cur[0] = tag
+                H.ev = E
+                ex_.add(z3.ULT(K[1], bv(2)))
+                ex_.add(E.well_formed(ix))
+                if quick and tag == 'B':
+                    ex_.add(E.is_step_ev(ix))          # quick tier: the second event is a step event (thorough: any)
+                f, r, s = key_values(*K, sfx='' if tag == 'A' else '.B')
+                evc = Cell(E.build(ix), name='ev' + tag)
+                try:
+                    ex_.call_body(H.body, [Ref(cell, ())] + H.bind_args(f, r, s, Ref(evc, ())))
+                except PathEnd as e:
+                    if e.kind != 'panic':
+                        raise
+        finally:
+            M.key_term = orig
+            H.ev = EA
+        return keys
+
+    def on_end(ex_, rec):
+        kind, res, pc, dec = rec
+        if kind != 'ok':
+            if kind in ('loopbound', 'unreachable'):
+                return
+            o.verdict = 'inconclusive'
+            o.detail = '%s: %s' % (kind, res)
+            return
+        ka = {t.sexpr(): t for t in res['A']}
+        kb = {t.sexpr(): t for t in res['B']}
+        if ka and kb:
+            w.verdict = 'witness-ok'
+        for a in ka.values():
+            for b in kb.values():
+                pairs[0] += 1
+                o.paths += 1
+                o.queries += 1
+                if a.sort() != b.sort():
+                    continue
+                differ = A[3] != B[3]
+                terms = {'A.feature': A[0], 'A.rule?': A[1], 'A.rule': A[2], 'A.scenario': A[3],
+                         'B.feature': B[0], 'B.rule?': B[1], 'B.rule': B[2], 'B.scenario': B[3], 'key(A)': a, 'key(B)': b}
+                same_place = z3.And(A[0] == B[0], A[1] == B[1], z3.Implies(A[1] == bv(1), A[2] == B[2]))
+                for extra in (same_place, None):
+                    cs = [differ, a == b] + ([extra] if extra is not None else [])
+                    if ex_.check(*cs):
+                        o.verdict = 'violated'
+                        o.model = common.model_dict(ex_.solver.model(), terms)
+                        o.model['same_feature_and_rule'] = extra is not None
+                        o.detail = 'two different scenarios are filed under one key'
+                        ex_.stop = True
+                        return
+
+    ex.explore(run, on_end)
+    w.detail = '%d key pairs compared' % pairs[0]
+    if o.verdict == 'violated':
+        confirm_key_separation(chk, o, prop)
+    return o
+
+
+def confirm_key_separation(chk, o, prop):
+    """Native: scenario A (two attempts failing with a retry left, then passing) and another scenario B of the same
+    feature at the same position, run between A's attempts.  By the statement A is counted once as retried and both are
+    passed; anything else is the shared indicator showing."""
+    import os
+    from checks import replay, common
+    d = o.model or {}
+    if not d.get('same_feature_and_rule'):
+        o.verdict = 'inconclusive'
+        o.detail += ' | the shared key needs two features (not scriptable)'
+        return
+    in_rule = 1 if d.get('A.rule?') == 1 else 0
+    sc = ['mode summarize', 'own 2', 'rule %d' % in_rule, 'twin',
+          'ev started r=0/2', 'ev step 0 failed panic r=0/2', 'ev finished r=0/2',
+          'tev started r=-', 'tev step 0 passed r=-', 'tev step 1 passed r=-', 'tev finished r=-',
+          'ev started r=1/1', 'ev step 0 failed panic r=1/1', 'ev finished r=1/1',
+          'ev started r=2/0', 'ev step 0 passed r=2/0', 'ev step 1 passed r=2/0', 'ev finished r=2/0']
+    rd = os.path.join(common.EVID, 'replay')
+    os.makedirs(rd, exist_ok=True)
+    path = os.path.join(rd, '%s-key-separation.script' % prop)
+    r, out = replay.run_script('\n'.join(sc) + '\n', path)
+    chk.replays += 1
+    chk.replay_files.append(path)
+    if r is None:
+        o.verdict = 'inconclusive'
+        o.detail += ' | native replay failed to run: %s' % out[-300:]
+        return
+    got = {n: r.get(n) for n in ('sc_passed', 'sc_skipped', 'sc_failed', 'sc_retried')}
+    want = {'sc_passed': 2, 'sc_skipped': 0, 'sc_failed': 0, 'sc_retried': 1}
+    if got != want:
+        o.replay = path
+        o.detail += ' | reproduced natively: two scenarios at one position, one retried twice and passed, the other passed: summary says %s, the stream %s: %s' % (got, want, path)
+    else:
+        o.verdict = 'inconclusive'
+        o.detail += ' | native replay does not show it (summary %s)' % got
